@@ -22,7 +22,7 @@ from lib.common import InfraError, findings_for, log, sha, tlc
 from props import vmd_lib as L
 from props.vmd_lib import V
 
-TEMPLATES = ["zero", "one", "many", "big", "heap", "rtfail", "assertfail", "exitcode"]
+TEMPLATES = ["zero", "one", "tail", "many", "big", "heap", "rtfail", "assertfail", "exitcode"]
 
 
 def model(ctx, quick, out):
@@ -54,6 +54,7 @@ def judge_round(ctx, flat, obs, findings, what, replay_spec, stats):
         if cl["kind"] != "exec":
             continue
         stats["clients"] += 1
+        stats["daemon_diag_lines"] = stats.get("daemon_diag_lines", 0) + L.client_stderr(o)[1]
         stats["cases"].add((cl["template"], cl["via"], len(flat)))
         if o.get("reply") == "driver_error":
             raise InfraError("client driver failed: %s" % o.get("error"))
@@ -89,15 +90,15 @@ def health_or_violation(ctx, dm, what, replay_spec, findings, stats, hostile=Fal
     return False
 
 
-def make_groups(bench, scens, rng, idbase):
+def make_groups(bench, scens, rng, idbase, cli_share=0.5):
     groups = []
     for s in scens:
-        groups.append(L.concretize(bench, s, rng, idbase))
+        groups.append(L.concretize(bench, s, rng, idbase, cli_share=cli_share))
         idbase += len(s["kinds"])
     return groups
 
 
-def replay_rounds(ctx, bench, variant, rounds, findings, stats, yield_seed, tag, trace=None, fresh_each=False):
+def replay_rounds(ctx, bench, variant, rounds, findings, stats, yield_seed, tag, trace=None, fresh_each=False, sync=False):
     """rounds: list of dict(scens=[...], seed=int).  One daemon for all rounds unless fresh_each."""
     work = ctx.dir("w_" + tag)
     sdir = os.path.join(ctx.scratch, "s" + tag[:6])
@@ -110,12 +111,12 @@ def replay_rounds(ctx, bench, variant, rounds, findings, stats, yield_seed, tag,
                     dm.stop()
                     logs.append(dm.stderr_text())
                 dm = V.Daemon(bench.vmd(variant), sdir, bench.P, trace=trace, yield_seed=yield_seed,
-                              env=ctx.env({"TSAN_OPTIONS": "halt_on_error=0:exitcode=0:second_deadlock_stack=1"}),
+                              env=ctx.env({"TSAN_OPTIONS": "halt_on_error=0:exitcode=0:history_size=7"}),
                               log=os.path.join(work, "daemon.%d.err" % i))
             rng = random.Random(rd["seed"])
-            groups = make_groups(bench, rd["scens"], rng, 1)
-            flat, obs = L.play_round(bench, dm, groups, rng, work)
-            spec = dict(prop="C17", kind="round", variant=variant, yield_seed=yield_seed, round=rd)
+            groups = make_groups(bench, rd["scens"], rng, 1, cli_share=0.0 if sync else 0.5)
+            flat, obs = L.play_round(bench, dm, groups, rng, work, sync_payload=sync)
+            spec = dict(prop="C17", kind="round", variant=variant, yield_seed=yield_seed, round=rd, sync=sync, fresh=fresh_each)
             stats["rounds"] += 1
             bad = judge_round(ctx, flat, obs, findings, "%s round %d" % (tag, i), spec, stats)
             if bad or i == len(rounds) - 1 or fresh_each:
@@ -218,7 +219,7 @@ def run(ctx):
     # fresh daemons: the first use of process-wide state (CRC table ...) by several sessions at once
     first = [dict(scens=[s for s in scens if s["gaps"] == ["overlap", "overlap"] and "zero" not in s["mods"]][i::7][:2],
                   seed=rng.getrandbits(31)) for i in range(3 if quick else 10)]
-    tlog = replay_rounds(ctx, bench, "tsan", first, findings, stats, yield_seed=0, tag="tsanF", fresh_each=True)
+    tlog = replay_rounds(ctx, bench, "tsan", first, findings, stats, yield_seed=0, tag="tsanF", fresh_each=True, sync=True)
     tlog += replay_rounds(ctx, bench, "tsan", pick_rounds(scens, rng, 6 if quick else 60, 2 if quick else 10, 3 if quick else 10),
                           findings, stats, yield_seed=ctx.seed + 17, tag="tsanR")
     triage_tsan(ctx, tlog, findings, stats, "tsan daemon")
@@ -248,6 +249,7 @@ def run(ctx):
              "schedule) are the initial states of Vmd.tla/Vmd_c17_gen, concretised with client-unique modules",
         scenarios_generated=len(scens), rounds=stats["rounds"], lazy_launch_daemons=stats.get("lazy_daemons"),
         tsan_reports=stats["tsan_reports"], known_hits=stats["known"],
+        daemon_diagnostics_on_client_stderr=stats.get("daemon_diag_lines", 0),
         model=dict(cfg=main.__dict__.get("cfg", "Vmd_c17" if quick else "Vmd_c17_full"), depth=main.depth,
                    crc_lazy=dict(violated=mres["lazy"].violated, states=mres["lazy"].distinct, trace_len=len(mres["lazy"].trace)),
                    crc_eager=dict(violated=mres["eager"].violated, states=mres["eager"].distinct),
@@ -279,7 +281,8 @@ def replay(ctx, path):
             lazy_launch(ctx, bench, findings, stats, rp["k"], rp["seed"] + i)
     else:
         rd = rp["round"]
-        text = replay_rounds(ctx, bench, variant, [rd] * 20, findings, stats, rp.get("yield_seed", 0), "replay")
+        text = replay_rounds(ctx, bench, variant, [rd] * 20, findings, stats, rp.get("yield_seed", 0), "replay",
+                             fresh_each=rp.get("fresh", False), sync=rp.get("sync", False))
         if variant == "tsan":
             triage_tsan(ctx, text, findings, stats, "replay")
     log("replayed %d rounds: %d violations" % (stats["rounds"], stats["violations"]))
